@@ -263,6 +263,14 @@ def run(tier, replay=None):
         what = "not-released=" + "+".join(line.get("left", [])) if line["e"] == "settled" else line["e"]
         run_.diverge("%s %s" % (tag, what), "scenario %s: %.0f ms after the peer vanished the server still holds streams %d, pending %d, handlers %d, lib goroutines %+d %s"
                      % (tid, r["release_ms"], r["streams"], r["pending"], r["handlers"], r["lib_goroutines"], r.get("sample", "")[:600]), rp)
+    # scratch directories of scenarios whose process died half-way
+    import glob, os, shutil, time
+    for d in glob.glob("/tmp/c08[0-9]*"):
+        try:
+            if time.time() - os.path.getmtime(d) > 300:
+                shutil.rmtree(d, ignore_errors=True)
+        except OSError:
+            pass
     run_.exhaustive = tier == "thorough"
     run_.rule = ("client scenarios = every (fault kind, boundary) initial state of CallEnds applicable to a client configuration x 1..3 pending calls "
                  "x context kinds (thorough: the full product; quick: one draw per pair), plus request-side boundaries and sampled byte offsets; "
